@@ -50,6 +50,10 @@ def leaf_kind(path):
     return "/".join(keep[-3:]) if keep else path
 
 
+OBS_FILES = ("acl_observation.py", "file_system_observations.py", "firewall_observation.py", "host_observations.py", "link_observation.py",
+             "nic_observations.py", "node_observations.py", "observation_manager.py", "observations.py", "router_observation.py", "software_observation.py")
+
+
 class SpaceMonitor:
     def __init__(self, cov, out, ctx):
         self.cov, self.out, self.ctx = cov, out, ctx
@@ -67,6 +71,9 @@ class SpaceMonitor:
         et, site = envrun.exc_site(exc)
         if site and ("flatten" in site or "spaces" in site or "environment.py:_get_obs" in site):
             self.v(f"observation-not-encodable/{et}@{site}", f"{phase}: {et}: {str(exc)[:200]}")
+        elif site and site.split(":")[0] in OBS_FILES:
+            # the observation code itself gave up on a reachable state: no member of the declared space could be produced for it
+            self.v(f"observation-cannot-be-built/{et}@{site}", f"{phase}: {et}: {str(exc)[:200]} (raised inside the observation code while encoding the state)")
 
     def check(self, env, obs, where):
         self.cov.inc("observations_checked")
